@@ -1,4 +1,85 @@
-import KfacVerif.Model.Alg
+/-
+C10 — a step touches nothing but the gradients of registered layers.
+A store model of what a step may write, the no-op theorems for eval-mode passes on both state
+machines, and the layout/shape facts about the write-back.  In-place aliasing inside PyTorch cannot
+be expressed here; it is observed by the bit-exact snapshots of the correspondence.
+Property theorems only.
+-/
+import KfacVerif.Lemmas.AlgLayout
+import KfacVerif.Model.Spec
+import KfacVerif.Model.Misc
+
 namespace KV.C10
-theorem placeholder : (1:Nat) = 1 := rfl
+open KV
+
+/-- what a training script can observe of a model: per (module path, tensor name) the parameter
+    value, its gradient, buffers -/
+inductive Slot where | param | grad | buffer
+deriving DecidableEq, Repr
+
+abbrev Key := String × String × Slot
+abbrev Store (α : Type) := Key → Option α
+
+/-- the keys a step may write: the weight and bias gradients of the registered modules -/
+def writeSet (registered : List String) (k : Key) : Bool :=
+  registered.contains k.1 && (k.2.1 == "weight" || k.2.1 == "bias") && k.2.2 == Slot.grad
+
+/-- `step()` as a store transformer: `update_grad` → `set_grad` on every registered layer -/
+def stepStore {α} (registered : List String) (new : Key → Option α) (s : Store α) : Store α :=
+  fun k => if writeSet registered k then new k else s k
+
+/-- **frame**: parameters, buffers, and gradients of unregistered (unsupported / skipped / frozen)
+    modules are untouched -/
+theorem frame {α} (registered : List String) (new : Key → Option α) (s : Store α) (k : Key)
+    (h : writeSet registered k = false) : stepStore registered new s k = s k := by
+  simp [stepStore, h]
+
+theorem params_buffers_untouched {α} (registered : List String) (new : Key → Option α) (s : Store α)
+    (m t : String) : stepStore registered new s (m, t, .param) = s (m, t, .param) ∧
+      stepStore registered new s (m, t, .buffer) = s (m, t, .buffer) := by
+  simp [stepStore, writeSet]
+
+/-- the registered set is what C16's model computes; a module that is not a registered leaf is
+    outside the write set whatever its parameters are called -/
+theorem unregistered_untouched {α} (tbl : Reg.MatchTbl) (neox : Bool) (t : Reg.MTree)
+    (new : Key → Option α) (s : Store α) (m : String) (tn : String) (sl : Slot)
+    (h : m ∉ (Reg.registered tbl neox t).map (·.name)) :
+    stepStore ((Reg.registered tbl neox t).map (·.name)) new s (m, tn, sl) = s (m, tn, sl) := by
+  have : writeSet ((Reg.registered tbl neox t).map (·.name)) (m, tn, sl) = false := by
+    have hc : ((Reg.registered tbl neox t).map (·.name)).contains m = false := by
+      simpa [List.contains_iff_mem] using h
+    show (List.contains _ m && _ && _) = false
+    rw [hc]; rfl
+  simp [stepStore, this]
+
+open KV.Precond KV.Spec in
+/-- **eval-mode passes leave all K-FAC state unchanged** (distributed and reference machine) -/
+theorem eval_noop (c : Cfg) (s : St) (c' : SCfg) (s' : SSt) :
+    Precond.exec c s (.fwdBwd false) = s ∧ Spec.exec c' s' (.fwdBwd false) = s' := by
+  constructor
+  · simp [Precond.exec, Precond.fwdBwd]
+  · simp [Spec.exec, Spec.fwdBwd]
+
+/-- **shape preserved by the write-back**: the weight part handed to `set_grad` has the rows of the
+    combined matrix minus the bias column, the bias one entry per row -/
+theorem writeback_shapes (grad : Alg.Mat) (n : Nat) (h : ∀ r ∈ grad, r.length = n + 1) :
+    let p := Alg.setGrad true grad
+    p.1.length = grad.length ∧ (∀ r ∈ p.1, r.length = n) ∧ p.2.map List.length = some grad.length := by
+  simp only [Alg.setGrad, if_true, List.length_map, Option.map_some, List.mem_map, true_and]
+  refine ⟨?_, trivial⟩
+  rintro _ ⟨r, hr, rfl⟩
+  simp [h r hr]
+
+theorem writeback_shapes_nobias (grad : Alg.Mat) : Alg.setGrad false grad = (grad, none) := by
+  simp [Alg.setGrad]
+
+/-- **finite algebra**: with positive damping no denominator of the eigen path is zero
+    (rational model of `1 / (outer(dg, da) + damping)` after the clamp) -/
+theorem no_division_by_zero (dg da : List Rat) (lam : Rat) (hl : 0 < lam) (i j : Nat) :
+    (Alg.clamp0 dg).getD i 0 * (Alg.clamp0 da).getD j 0 + lam ≠ 0 := by
+  have h1 := Alg.clamp0_getD_nonneg dg i
+  have h2 := Alg.clamp0_getD_nonneg da j
+  have := mul_nonneg h1 h2
+  exact ne_of_gt (by linarith)
+
 end KV.C10
